@@ -172,3 +172,24 @@ def model_weight(lp):
 
 
 MODEL_WEIGHT_LIMIT = 150000
+
+
+def left_null_vector(rows):
+    """untrusted helper (exact, Fractions): a non-zero y with y A = 0, or None when A is non-singular.
+    Its answer is only used as a certificate that the extracted checker verifies."""
+    n = len(rows)
+    # eliminate on [A | I] row-wise
+    aug = [list(map(F, rows[i])) + [F(1) if i == j else F(0) for j in range(n)] for i in range(n)]
+    piv_rows = []
+    for i in range(n):
+        r = aug[i]
+        for (c, p) in piv_rows:
+            if r[c] != 0:
+                f = r[c] / p[c]
+                r = [a - f * b for a, b in zip(r, p)]
+        c = next((j for j in range(n) if r[j] != 0), None)
+        if c is None:
+            return r[n:]
+        piv_rows.append((c, r))
+        aug[i] = r
+    return None
